@@ -5,6 +5,7 @@ package main
 import (
 	"fmt"
 	"math"
+	"sort"
 	"strconv"
 	"strings"
 
@@ -722,4 +723,50 @@ func (c *Ctx) overriding(prop string) {
 		m.Alarm(prop, "a stored overriding derived structure is not handed back identically by GetTF")
 	}
 	c.St.Eval("overriding:"+prop, true)
+}
+
+// A derived structure that overrides String() (say, to print itself prettily by default).  FormatString is defined on
+// the CONTENT of the container — the canonical layout of its serialisation — not on whatever the outer value's String()
+// says: it is what FormatString of a plain clone gives, for every indent, also when the derived value is an element.
+type strList struct{ at.List }
+
+func (s *strList) String() string { return `["overridden"]` }
+
+type strObj struct{ at.Object }
+
+func (s *strObj) String() string { return `{"overridden":true}` }
+
+func (c *Ctx) overridingString(prop string) {
+	m := c.M
+	m.Case("overriding-string")
+	sl := &strList{List: at.NewList(1, "a", at.NewObject("k", 2.5))}
+	sl.Init(sl)
+	so := &strObj{Object: at.NewObject("a", 1, "l", at.NewList(true, nil))}
+	so.Init(so)
+	safe := func(f func() string) (res string) {
+		defer func() {
+			if r := recover(); r != nil {
+				res = fmt.Sprintf("panic: %v", r)
+			}
+		}()
+		return f()
+	}
+	for n := 0; n <= 10; n += 2 {
+		if got, want := safe(func() string { return sl.FormatString(n) }), safe(func() string { return sl.List.Clone().FormatString(n) }); got != want {
+			m.Alarm(prop, fmt.Sprintf("FormatString(%d) of a derived list that overrides String(): %q; the layout of its content is %q", n, got, want))
+		}
+		got, want := safe(func() string { return so.FormatString(n) }), safe(func() string { return so.Object.Clone().FormatString(n) })
+		// field order may differ between two serialisations: compare the multiset of lines
+		gl, wl := strings.Split(strings.ReplaceAll(got, ",\n", "\n"), "\n"), strings.Split(strings.ReplaceAll(want, ",\n", "\n"), "\n")
+		sort.Strings(gl)
+		sort.Strings(wl)
+		if strings.Join(gl, "\n") != strings.Join(wl, "\n") {
+			m.Alarm(prop, fmt.Sprintf("FormatString(%d) of a derived object that overrides String(): %q; the layout of its content is %q", n, got, want))
+		}
+	}
+	parent := at.NewList(sl, so)
+	if got := safe(func() string { return parent.FormatString(0) }); strings.Contains(got, "overridden") {
+		m.Alarm(prop, fmt.Sprintf("FormatString of a list holding derived structures that override String(): %q", got))
+	}
+	c.St.Eval("overriding-string:"+prop, true)
 }
